@@ -4,6 +4,7 @@
 #![doc = include_str!("../README.md")]
 #![deny(missing_docs)]
 #![cfg_attr(docsrs, feature(doc_cfg))]
+#![allow(unexpected_cfgs)]
 
 pub use crate::entry::{BoxEntry, Entry, EntryConfig, EntryWriter};
 pub use crate::global::GlobalEntrySink;
@@ -30,6 +31,13 @@ pub mod value;
 #[cfg(feature = "test-util")]
 #[doc(hidden)]
 pub use tokio as __tokio;
+
+/// Verification hook: the lock type `global_entry_sink!` expands to under `--cfg metrique_verif`.
+#[cfg(metrique_verif)]
+#[doc(hidden)]
+pub mod __verif_sync {
+    pub use detsim::sync::RwLock;
+}
 
 /// Private test module to make writing internal tests easier. This might change or
 /// be fully removed in any version.
